@@ -83,8 +83,91 @@ fn copy_lib(from: &Path, to: &Path, top: bool) {
     }
 }
 
+/// (round 15) Does the library itself (not the generator programs) meet the environment — files,
+/// streams, hash containers, threads, clock, process? Then the generators' calls into it must go
+/// to a copy compiled behind the same seams the generators see (seeded `m63`: the locale walk and
+/// the swallowed `open` error moved into a library module); otherwise the real crate is what they
+/// call, as always.
+fn lib_meets_environment(dir: &Path, top: bool) -> Option<String> {
+    const MARKS: [&str; 14] = [
+        "std::fs", "fs::File", "File::open", "read_dir", "std::io::Read", "std::io::Write", "io::stdout", "HashMap", "HashSet",
+        "std::thread", "thread::spawn", "std::env", "std::time", "std::process",
+    ];
+    let rd = std::fs::read_dir(dir).ok()?;
+    let mut entries: Vec<_> = rd.flatten().collect();
+    entries.sort_by_key(|e| e.file_name());
+    for e in entries {
+        let p = e.path();
+        let n = e.file_name().to_string_lossy().to_string();
+        if p.is_dir() {
+            if top && n == "bin" {
+                continue;
+            }
+            if let Some(w) = lib_meets_environment(&p, false) {
+                return Some(w);
+            }
+        } else if n.ends_with(".rs") {
+            if let Ok(text) = std::fs::read_to_string(&p) {
+                for (i, line) in text.lines().enumerate() {
+                    let t = line.trim_start();
+                    if t.starts_with("//") {
+                        continue;
+                    }
+                    if let Some(m) = MARKS.iter().find(|m| line.contains(**m)) {
+                        return Some(format!("{} line {}: {}", p.display(), i + 1, m));
+                    }
+                }
+            }
+        }
+    }
+    None
+}
+
+fn copy_libgen(from: &Path, to: &Path, top: bool) {
+    let Ok(rd) = std::fs::read_dir(from) else { return };
+    for e in rd.flatten() {
+        let p = e.path();
+        let name = e.file_name();
+        let n = name.to_string_lossy().to_string();
+        if p.is_dir() {
+            if top && n == "bin" {
+                continue;
+            }
+            let sub = to.join(&name);
+            let _ = std::fs::create_dir_all(&sub);
+            copy_libgen(&p, &sub, false);
+        } else if n.ends_with(".rs") {
+            if let Ok(text) = std::fs::read_to_string(&p) {
+                let body = neutralise(&text, LIBGEN_HOME, from);
+                let text = if top && n == "lib.rs" { body } else { format!("{}{}", SHADOW, body) };
+                let _ = std::fs::write(to.join(&name), text);
+            }
+        } else {
+            let _ = std::fs::copy(&p, to.join(&name));
+        }
+    }
+}
+
 fn main() {
     let out_dir = std::env::var("OUT_DIR").unwrap();
+    println!("cargo:rustc-check-cfg=cfg(gens_use_libgen)");
+    // the cargo features the repository's generators are built with (`--features binary` implies
+    // the optional dependencies serde and serde_json): the copies of the library sources read them
+    for f in ["binary", "serde", "serde_json"] {
+        println!("cargo:rustc-cfg=feature=\"{}\"", f);
+    }
+    {
+        let dir = Path::new(&out_dir).join("libgen");
+        let _ = std::fs::remove_dir_all(&dir);
+        std::fs::create_dir_all(&dir).unwrap();
+        if let Some(why) = lib_meets_environment(Path::new(LIB), true) {
+            copy_libgen(Path::new(LIB), &dir, true);
+            println!("cargo:rustc-cfg=gens_use_libgen");
+            println!("cargo:rustc-env=GENSIM_LIBGEN_WHY={}", why.replace('\n', " "));
+        } else {
+            println!("cargo:rustc-env=GENSIM_LIBGEN_WHY=");
+        }
+    }
     {
         let dir = Path::new(&out_dir).join("libsim");
         let _ = std::fs::remove_dir_all(&dir);
